@@ -67,12 +67,13 @@ type BPKey struct {
 }
 
 func NewBPKey(name string, seed int64) *BPKey {
+	// (crypto.GenerateSecp256k1Key ignores its reader, so the key is derived explicitly)
 	h := sha256.Sum256([]byte(fmt.Sprintf("verif-bp/%s/%d", name, seed)))
-	priv, pub, err := crypto.GenerateSecp256k1Key(bytes.NewReader(append(h[:], h[:]...)))
+	priv, err := crypto.UnmarshalSecp256k1PrivateKey(h[:])
 	if err != nil {
 		panic(err)
 	}
-	id, err := types.IDFromPublicKey(pub)
+	id, err := types.IDFromPublicKey(priv.GetPublic())
 	if err != nil {
 		panic(err)
 	}
